@@ -356,7 +356,7 @@ class EventLogRsp(Codec):
 
     def view(self, E, pfx=''):
         return {'busy': E.bool(pfx + 'busy'), 'event_count': u16(E, pfx + 'event_count'), 'message_count': u16(E, pfx + 'message_count'),
-                'events': E.ints(pfx + 'events', 0, 256, 0, 64)}
+                'events': E.ints(pfx + 'events', 0, 256, 0, 245)}      # C02: every list length that fits a 253-byte PDU (the specification stops at 64)
 
     def wire(self, E, v):
         return L.concat([6 + L.length(v['events'])], P.be16(L.ite(v['busy'], 0xFFFF, 0x0000)), P.be16(v['event_count']), P.be16(v['message_count']), v['events'])
